@@ -87,11 +87,45 @@ func init() {
 				time.Sleep(5 * time.Millisecond)
 			}
 		}
+		// hold=1: an HTTP/1.1 connection in the middle of SENDING a request keeps the graceful shutdown of the
+		// internal HTTP/1.1 server (and with it the listener) waiting; connections attempted in that window must
+		// not be served either
+		var held net.Conn
+		if kv["hold"] == "1" && kv["early"] != "1" {
+			if c, _, _, err := dialProxy(env, clientCfg{kind: "go", sni: "example.test", alpn: []string{"http/1.1"}, peer: "127.0.0.1"}); err == nil {
+				io.WriteString(c, "GET /held HTTP/1.1\r\nHost: example.test\r\nX-Verif-Tag: held\r\n")
+				time.Sleep(40 * time.Millisecond)
+				held = c
+			}
+		}
 		// cancel (SIGINT/SIGTERM in the binary)
 		t0 := time.Now()
 		env.cancel()
 		if kv["twice"] == "1" {
 			env.cancel()
+		}
+		during := "n/a"
+		if held != nil {
+			time.Sleep(60 * time.Millisecond)
+			during = "refused"
+			for _, al := range []string{"h2", "http/1.1"} {
+				// a connection attempted after cancellation must not be served: no HTTP response of any status may
+				// come back on it (with the real wiring the proxy would answer 504 itself, its context being
+				// cancelled already; a TLS 1.3 client may see its own handshake "succeed" before the server side
+				// aborts, so handshake success alone is not the criterion)
+				if c, _, neg, err := dialProxy(env, clientCfg{kind: "go", sni: "example.test", alpn: []string{al}, peer: "127.0.0.1"}); err == nil {
+					c.SetDeadline(time.Now().Add(2 * time.Second))
+					if neg == "h2" {
+						if m, _ := h2Exchange(c, []string{"S:", "H:1.1.-.0.0"}, req("during-h2")); m[1] != nil && m[1].status != 0 {
+							during = "served"
+						}
+					} else if rs := h1Exchange(c, req("during-h1")); len(rs) == 1 && rs[0].status != 0 {
+						during = "served"
+					}
+					c.Close()
+				}
+			}
+			held.Close()
 		}
 		ret, early := "hang", "n/a"
 		defer close(slowRelease)
@@ -149,15 +183,16 @@ func init() {
 		if lat > 4*time.Second {
 			fast = "0"
 		}
-		return fmt.Sprintf("ret=%s fast=%s listener=%s post=%s h1idle=%s inflight=%s drain=%s", ret, fast, lnState, post, idleState, ifl, early)
+		return fmt.Sprintf("ret=%s fast=%s listener=%s post=%s h1idle=%s inflight=%s drain=%s during=%s", ret, fast, lnState, post, idleState, ifl, early, during)
 	})
 
 	register("shutdown", "C17: cancel at every point of a workload against the real stack", func(c *ctx) {
 		c.op("shutdown h1idle=0 h2open=0 stalled=0 inflight=0 early=1 twice=0")
 		c.op("shutdown h1idle=0 h2open=0 stalled=0 inflight=0 early=0 twice=1")
+		c.op("shutdown h1idle=1 h2open=1 stalled=0 inflight=0 early=0 twice=0 hold=1")
 		for i := 0; i < c.count; i++ {
 			r := c.rng.fork()
-			c.op(fmt.Sprintf("shutdown h1idle=%d h2open=%d stalled=%d inflight=%d early=%d twice=%d", r.intn(4), r.intn(4), r.intn(4), r.intn(2), b2i(r.chance(1, 8)), r.intn(2)))
+			c.op(fmt.Sprintf("shutdown h1idle=%d h2open=%d stalled=%d inflight=%d early=%d twice=%d hold=%d", r.intn(4), r.intn(4), r.intn(4), r.intn(2), b2i(r.chance(1, 8)), r.intn(2), b2i(r.chance(1, 3))))
 		}
 	})
 }
